@@ -65,7 +65,8 @@ def s_of(n):
 
 
 def n_of(s):
-    return None if s is None else STR.index(s)
+    """Label of a string the back end returned (-1: not a string any call supplied)."""
+    return None if s is None else (STR.index(s) if s in STR else -1)
 
 
 def data_of(n):
@@ -73,7 +74,7 @@ def data_of(n):
 
 
 def label_of_data(d):
-    return DATA.index(d)
+    return DATA.index(d) if d in DATA else -1
 
 
 def created_us(n):
@@ -90,10 +91,13 @@ _CREATED_LABEL = {created_us(n): n for n in range(N_CREATED)}
 
 
 def created_label(s):
-    d = s if isinstance(s, datetime) else datetime.fromisoformat(str(s))
-    if d.tzinfo is None:
-        d = d.replace(tzinfo=timezone.utc)
-    return _CREATED_LABEL[us_of_dt(d)]
+    try:
+        d = s if isinstance(s, datetime) else datetime.fromisoformat(str(s))
+        if d.tzinfo is None:
+            d = d.replace(tzinfo=timezone.utc)
+        return _CREATED_LABEL.get(us_of_dt(d), -1)
+    except (ValueError, TypeError):
+        return -1
 
 
 def meta_w(m):
@@ -286,7 +290,14 @@ class Run:
             except ValueError:
                 out.append([])
                 continue
-            evs = sorted((sh.ev_w(e) for e in self.st.get_events(s_of(b), -1)), key=lambda w: (w[0], w[1:]))
+            except Exception as ex:  # noqa: BLE001 -- reported by the oracle
+                out.append(["raised", "get_metadata", type(ex).__name__])
+                continue
+            try:
+                evs = sorted((sh.ev_w(e) for e in self.st.get_events(s_of(b), -1)), key=lambda w: (w[0], w[1:]))
+            except Exception as ex:  # noqa: BLE001
+                out.append(["raised", "get_events", type(ex).__name__])
+                continue
             out.append([[meta_w(m), evs]])
         return out
 
@@ -369,10 +380,12 @@ def run_history(backend, sym_ops, univ, tmpdir, n):
                 continue
             res = run.apply(op, obj)
             views = run.dump(univ)
-            for v in views:
-                seen.update(sh.live_ids(v))
             ops.append(op)
             steps.append([res, run.cache(), run.listing(), run.nrows()] + views)
+            if any(v and v[0] == "raised" for v in views):
+                break                     # the store can no longer be described: the oracle reports it
+            for v in views:
+                seen.update(sh.live_ids(v))
         return {"ops": ops, "steps": steps}
     finally:
         run.close()
@@ -491,6 +504,9 @@ class Oracle:
         univ = self.univ
         cache0, listing0, views0 = before[0], before[1], before[3:]
         cache1, listing1, views1 = after[0], after[1], after[3:]
+        for b, v in zip(univ, views1):
+            if v and v[0] == "raised":
+                return f"after the call, storage.{v[1]} of bucket {b} raises {v[2]}"
         if set(x[0] for x in (listing1[1][1] if listing1[0] == 0 else [])) <= set(univ):
             held = sum(len(v[0][1]) for v in views1 if v != [])
             if after[2] != held:
